@@ -586,6 +586,14 @@ void run_closed_client(Judge& j, uint64_t n) {
             }
             sc.script.push_back(a);
         }
+        // an async_receive waiting on the client that is not running, and a cancel() before the next run: cancel() completes whatever
+        // is outstanding, on a client that is not running as on any other
+        if (state == 0 && rng.chance(1, 2)) {
+            sc.auto_receive = false;
+            Action rc; rc.kind = Action::receive; rc.at = 0; rc.in_handler = rng.chance(1, 2); sc.script.insert(sc.script.begin(), rc);
+            Action c; c.kind = Action::cancel; c.at = t + 500 * MS; sc.script.push_back(c);
+            j.res.count("receives_pending_on_a_client_never_run");
+        }
         Action r2; r2.kind = Action::run; r2.at = t + 1 * SEC; sc.script.push_back(r2);
         sc.end = t + 20 * SEC;
         vu::set_case(sc.family + " index=" + std::to_string(i));
